@@ -33,7 +33,7 @@ EXPLANATION = (
     ' (5) addSubWeights only loads, stores and applies wrapping 16-bit add / subtract in matching numbers (no clamp, no saturating intrinsic) in every build variant, and the full refresh uses the same routine as the incremental update.'
     ' Added later; (7) the classification pass endGameEval<false>, whose result is cached under the material signature alone, branches only on functions of the material (signature, sums, piece counts, presence tests; sums of square-restricted counts over a partition of the board count as piece counts).'
     ' Added later; (8) no right shift of a signed value that may be negative in Evaluate / EndGameEval (reaching definitions prove non-negativity).'
-    ' Added later; (9) computeL1WB keeps an accumulator only while the king square is unchanged, or under a key that is as fine as getIndex (both interpreted for all 64 x 10 x 64 x 2 arguments).')
+    ' Added later; (9) computeL1WB keeps an accumulator only while the king square is unchanged, or under a key that is as fine as getIndex (both interpreted for all 64 x 10 x 64 x 2 arguments). (3, strengthened) no lossy operator (abs, division, shift, mask, narrowing conversion) stands between the contempt and the key term.')
 UNDECIDED = ('numerical equality of incremental and from-scratch network outputs and of the SIMD kernels beyond the group-structure clause 5 (value-level), '
              'left-right mirror symmetry of the network, endgame cases that are written inline rather than as helper calls (listed as not covered).')
 ASSUMPTIONS = ['position domain: at most 30 non-king men', 'the helper evaluations (k*Eval) themselves are written from white\'s point of view']
@@ -256,6 +256,49 @@ def c2_queues(fb, rep):
 
 # ----------------------------------------------------------------------------- .3
 
+_WIDE = ('int', 'unsigned int', 'long', 'unsigned long', 'long long', 'unsigned long long', 'S64', 'U64', 'S32', 'U32')
+
+
+def _lossy_steps(tree, inp):
+    """operators between the field `inp` and the root of `tree` that are not injective in it (empty list = injective)"""
+    out = []
+
+    def has(t):
+        return any(isinstance(n, dict) and n.get('k') == 'mem' and (n.get('f') or '').endswith('::' + inp) for n in walk(t))
+
+    def go(t):
+        if not isinstance(t, dict) or not has(t):
+            return
+        k = t.get('k')
+        if k == 'mem':
+            return
+        if k in ('cast', 'paren'):
+            if k == 'cast' and (t.get('t') or '').replace('const ', '') not in _WIDE:
+                out.append('conversion to ' + str(t.get('t')))
+            return go(t.get('e'))
+        if k == 'un' and t.get('op') in ('-', '~', '+'):
+            return go(t.get('e'))
+        if k == 'bin':
+            l, r = t.get('l'), t.get('r')
+            a, b = (l, r) if has(l) else (r, l)
+            if has(l) and has(r):
+                out.append('`%s` of two terms that both depend on it' % t.get('op'))
+                return
+            c = _strip(b)
+            const = isinstance(c, dict) and 'cv' in c
+            if t.get('op') == '*' and const and c['cv'] % 2 == 1:
+                return go(a)
+            if t.get('op') in ('^', '+') and const:
+                return go(a)
+            if t.get('op') == '-' and const:
+                return go(a)
+            out.append('`%s`' % show(t, 60))
+            return
+        out.append('`%s`' % show(t, 60))
+    go(tree)
+    return out
+
+
 def c3_cache(fb, rep, clause='C07.3'):
     evs = [f for f in fb.find('Evaluate::evalPos') if f.d.get('targs')]
     f = next((x for x in evs if x.d.get('targs') == ['false']), None)
@@ -314,6 +357,12 @@ def c3_cache(fb, rep, clause='C07.3'):
             # injective in the input: multiplication by an odd constant
             odd = any(n.get('k') == 'bin' and n.get('op') == '*' and any(('cv' in (_strip(s) or {})) and (_strip(s)['cv'] % 2 == 1) for s in (n.get('l'), n.get('r'))) for n in walk(me.get('r')))
             ok_mix = ok_mix and odd
+            # ... and nothing on the way from the input to the key term loses information: only widening / same-width
+            # integer conversions, multiplication by an odd constant, xor / add / subtract of a constant, negation
+            lossy = _lossy_steps(me.get('r'), inp)
+            if lossy:
+                ok_mix = False
+                detail += '; not injective in %s: %s' % (inp, lossy[:3])
         rep.ob(clause, 'K16 cache key', 'evalPos: %s (not a function of the position) is mixed into the cache key whenever it can change the score' % inp, ok_mix,
                R.site(f, mixes[0][2]) if mixes else f.where, detail or 'no key term depends on %s although the cached score does' % inp, f.sname)
     # store uses the key that was looked up
